@@ -21,8 +21,8 @@ CHECKS = {
    note="Trusted: TLC, PathInterp.tla, projection code. Path+Shape compares the appended tail with Path(shape) (C06 owns the decomposition).",
    design="5/C17"),
  "C16": dict(
-   technique="TLA+ geometry abstraction PathOps (sub-path rule, Mirror, MirrorSub, integer affine maps) model-checked by TLC (Involution, ClosedStays, OnlyThatSub, NoPointLost); every shape x operation history replayed on real Path objects",
-   text="TLC enumerates every path shape of <= MaxSegs segments over M L Q C A Z (incl. zero-length closes, sub-paths without their own move, fragments) and every history of reverse / subpath-reverse / integer affine map up to MaxOps, carrying the expected geometry; the real path built from segment objects is driven through the same history and its projected geometry compared (closed sub-paths up to cyclic rotation).",
+   technique="TLA+ geometry abstraction PathOps (sub-path rule, Mirror, MirrorSub, integer affine maps) model-checked by TLC (Involution, ClosedStays, OnlyThatSub, NoPointLost); every shape x operation history replayed on real Path objects; plus TLC trace validation (Trace_C16/PathEdit) of recorded edit histories of 8-40 operations",
+   text="Binding B: a real Path is driven through seeded random histories of builder calls, reverse(), subpath(i).reverse() and lazily applied or reified affine maps; the integer geometry logged after every operation is recomputed step by step by TLC with PathOps/PathEdit (closed sub-paths as cycles), with a corruption self-test. Binding A: TLC enumerates every path shape of <= MaxSegs segments over M L Q C A Z (incl. zero-length closes, sub-paths without their own move, fragments) and every history of reverse / subpath-reverse / integer affine map up to MaxOps, carrying the expected geometry; the real path built from segment objects is driven through the same history and its projected geometry compared (closed sub-paths up to cyclic rotation).",
    note="Trusted: TLC, PathOps.tla, the ~40-line Python projection of a real Path onto the abstraction. Arcs compared through the library's Arc constructor. Two known-finding classes (paths whose sub-paths lack their own move) are reported as KNOWN-FINDING; the well-formed class is fully guarded.",
    design="5/C16"),
  "C07": dict(
